@@ -268,10 +268,15 @@ func ClearViewWithPagination(ctx context.Context, view ClearableView, logger hcl
 
 		removedKeys += 1
 
-		newPctDone := removedKeys * 100.0 / countKeys
-		if int(newPctDone) > pctDone {
-			pctDone = int(newPctDone)
-			logger.Trace("view deletion progress", "percent", pctDone, "keys_deleted", removedKeys)
+		// countKeys comes from an earlier pass over the view; keys written
+		// in between (countKeys may even be zero) must not break progress
+		// reporting.
+		if countKeys > 0 {
+			newPctDone := removedKeys * 100.0 / countKeys
+			if int(newPctDone) > pctDone {
+				pctDone = int(newPctDone)
+				logger.Trace("view deletion progress", "percent", pctDone, "keys_deleted", removedKeys)
+			}
 		}
 
 		return true, nil
